@@ -104,3 +104,34 @@ def vacuity(ex):
     else:
         res.append(('normal-exit-reachable', str(r2)))
     return res
+
+
+class Incremental(object):
+    """Obligations are checked in generation order with exactly the assumptions made before them."""
+
+    def __init__(self, ex):
+        self.ex = ex
+        self.s = z3.Solver()
+        self.s.set('timeout', Z3_TIMEOUT_MS)
+        self.s.set('random_seed', 1)
+        self.n = 0
+
+    def check(self, ob):
+        t0 = time.time()
+        while self.n < ob.n_assumes:
+            self.s.add(self.ex.assumes[self.n])
+            self.n += 1
+        self.s.push()
+        self.s.add(ob.guard)
+        self.s.add(Not(ob.cond))
+        r = self.s.check()
+        model = self.s.model() if r == z3.sat else None
+        reason = self.s.reason_unknown() if r == z3.unknown else ''
+        self.s.pop()
+        dt = time.time() - t0
+        if r == z3.unsat:
+            return Result(ob.name, 'unsat', 'z3-api', dt, info=ob.info)
+        if r == z3.sat:
+            return Result(ob.name, 'sat', 'z3-api', dt, model=model, info=ob.info)
+        # fall back to a fresh (non-incremental) query with the CLI portfolio
+        return check(self.ex.assumes[:ob.n_assumes], ob.guard, ob.cond, ob.name, ob.info)
